@@ -33,7 +33,7 @@ def qlit(v):
 
 class FuncSpec:
     def __init__(self, func, name=None, cls=None, params=None, selfmap=None, selfconst=None,
-                 ret=None, self_out=None, skip_params=()):
+                 ret=None, self_out=None, skip_params=(), vararg=None, global_dists=None):
         self.func = func          # python function name
         self.cls = cls            # enclosing class or None
         self.name = name or func  # Coq name
@@ -43,6 +43,9 @@ class FuncSpec:
         self.ret = ret
         self.self_out = self_out  # for __attrs_post_init__-like: list of self attrs returned
         self.skip_params = skip_params
+        self.vararg = vararg or {}          # name of *args -> [(coq name, type), ...] (positional meaning of args[i])
+        self.global_dists = global_dists or {}   # e.g. {"scipy.stats.gamma": "G"}: a distribution parameter
+        self.uses_rng = False
 
 class Translator:
     def __init__(self, source_text, specs, known=None):
@@ -232,6 +235,16 @@ class Translator:
         return "(fun v__ => %s)" % body
 
     def subscript(self, node, env, sp):
+        if isinstance(node.value, ast.Name) and node.value.id in sp.vararg and isinstance(node.slice, ast.Constant) and isinstance(node.slice.value, int):
+            items = sp.vararg[node.value.id]
+            if 0 <= node.slice.value < len(items):
+                return items[node.slice.value]
+            raise Refuse("vararg index")
+        # x.shape[0]
+        if isinstance(node.value, ast.Attribute) and node.value.attr == "shape" and isinstance(node.slice, ast.Constant) and node.slice.value == 0:
+            v, t = self.expr(node.value.value, env, sp)
+            if is_list(t):
+                return ("(Z.of_nat (List.length %s))" % v, "Z")
         # np.where(mask)[0]
         if isinstance(node.value, ast.Call) and call_name(node.value) == "np.where" and \
            isinstance(node.slice, ast.Constant) and node.slice.value == 0 and len(node.value.args) == 1:
@@ -249,6 +262,26 @@ class Translator:
         raise Refuse("subscript %s" % ast.unparse(node))
 
     def call(self, node, env, sp):
+        fn_txt = ast.unparse(node.func)
+        if fn_txt == "np.where" and len(node.args) == 3 and not node.keywords:
+            c, tc = self.expr(node.args[0], env, sp)
+            a, ta = self.expr(node.args[1], env, sp)
+            b, tb = self.expr(node.args[2], env, sp)
+            if tc == "B" and ta in ("Z", "Q") and tb in ("Z", "Q"):
+                return ("(if %s then %s else %s)" % (c, self.toQ((a, ta)), self.toQ((b, tb))), "Q")
+            raise Refuse("np.where types %s %s %s" % (tc, ta, tb))
+        if fn_txt == "np.random.uniform" and len(node.args) == 3 and not node.keywords:
+            lo = self.expr(node.args[0], env, sp); hi = self.expr(node.args[1], env, sp)
+            sp.uses_rng = True
+            return ("(%s + (%s - %s) * u__)%%Q" % (self.toQ(lo), self.toQ(hi), self.toQ(lo)), "Q")
+        if isinstance(node.func, ast.Attribute) and ast.unparse(node.func.value) in sp.global_dists and node.func.attr in ("cdf", "ppf"):
+            G = sp.global_dists[ast.unparse(node.func.value)]
+            if len(node.args) == 2 and isinstance(node.args[1], ast.Starred) and not node.keywords:
+                v, t = self.expr(node.args[0], env, sp)
+                pf, tp = self.expr(node.args[1].value, env, sp) if not (isinstance(node.args[1].value, ast.Name) and node.args[1].value.id in sp.vararg) else (sp.vararg[node.args[1].value.id][0][0], sp.vararg[node.args[1].value.id][0][1])
+                if tp == "P" and t == "Q":
+                    return ("(%s %s %s %s)" % (node.func.attr, G, pf, v), "Q")
+            raise Refuse("global distribution call form")
         # self.distribution.fit / cdf / ppf  (the distribution is a parameter D : dist P)
         if isinstance(node.func, ast.Attribute) and isinstance(node.func.value, ast.Attribute) and \
            isinstance(node.func.value.value, ast.Name) and node.func.value.value.id == "self" and node.func.value.attr == "distribution":
@@ -256,7 +289,7 @@ class Translator:
                 raise Refuse("self.distribution not in spec")
             D = env["self.distribution"][0]
             m = node.func.attr
-            if node.keywords:
+            if node.keywords and not (m == "fit" and all(k.arg is None for k in node.keywords)):
                 raise Refuse("keyword arguments to distribution.%s" % m)
             if m == "fit" and len(node.args) == 1:
                 v, t = self.expr(node.args[0], env, sp)
@@ -638,6 +671,11 @@ class Translator:
         raise Refuse("statement %s" % type(s).__name__)
 
     def fold_test(self, test, env, sp):
+        if isinstance(test, ast.Compare) and len(test.ops) == 1 and isinstance(test.ops[0], (ast.Is, ast.IsNot)) and \
+           isinstance(test.comparators[0], ast.Constant) and test.comparators[0].value is None and \
+           isinstance(test.left, ast.Attribute) and isinstance(test.left.value, ast.Name) and test.left.value.id == "self" and test.left.attr in sp.selfconst:
+            isnone = sp.selfconst[test.left.attr] is None
+            return isnone if isinstance(test.ops[0], ast.Is) else (not isnone)
         if isinstance(test, ast.Compare) and len(test.ops) == 1 and isinstance(test.ops[0], ast.Eq):
             l, r = test.left, test.comparators[0]
             def cv(n):
@@ -663,11 +701,22 @@ class Translator:
             env["self." + attr] = (cn, t)
             binders.append("(%s : %s)" % (cn, coq_type(t)))
         pyparams = [a.arg for a in fn.args.args if a.arg not in ("self", "cls") and a.arg not in sp.skip_params]
+        va = fn.args.vararg.arg if fn.args.vararg else None
+        if (set(sp.vararg.keys()) or {None}) != {va}:
+            raise Refuse("*args of %s changed: %s vs spec %s" % (sp.func, va, list(sp.vararg.keys())))
         if list(sp.params.keys()) != pyparams:
             raise Refuse("parameter list of %s changed: %s vs spec %s" % (sp.func, pyparams, list(sp.params.keys())))
         for p, t in sp.params.items():
             env[p] = (p, t)
             binders.append("(%s : %s)" % (p, coq_type(t)))
+        for va, items in sp.vararg.items():
+            for (cn, t) in items:
+                binders.append("(%s : %s)" % (cn, coq_type(t)))
+        for gname, G in sp.global_dists.items():
+            binders.append("(%s : dist P)" % G)
+        if (sp.vararg and any(t == "P" for its in sp.vararg.values() for (_, t) in its)) or sp.global_dists:
+            if "{P : Type}" not in binders:
+                binders.insert(0, "{P : Type}")
         body = list(fn.body)
         # a trailing yield statement is treated as the generator's element
         has_raise = any(isinstance(n, ast.Raise) for s in body for n in ast.walk(s))
@@ -699,6 +748,8 @@ class Translator:
             rt = "option (" + rt + ")"
         if has_raise and not has_return and not sp.self_out and not is_gen:
             rt = "option unit"
+        if sp.uses_rng:
+            binders.append("(u__ : Q)")
         header = "Definition %s %s%s :=\n  %s." % (sp.name, " ".join(binders), (" : " + rt) if rt else "", txt)
         self.known[sp.func] = (
             sp.name, [t for t in sp.params.values()], rett if not has_raise else ("OPT", rett),
